@@ -1,15 +1,17 @@
 #!/bin/bash
-# confirm_seed.sh <PID>: in scratch worktree /tmp/seed_<PID> (patch applied): tests pass, demo fails; without patch: demo passes.
+# confirm_seed.sh <PID>: scratch worktree /tmp/seed_<PID>, deliverables in /tmp/seed_<PID>_out.
+# With patch.diff applied: the library builds, ModuleTest and ctest pass, the demo fails; without it: the demo passes.
+# (no git stash: the stash is shared by all worktrees of a repository, so parallel runs would swap patches)
 p=$1; W=/tmp/seed_$p; O=/tmp/seed_${p}_out
 INC="-I$W/Lib/core/public -I$W/Lib/structs/public -I$W/Lib/mem/public -I$W/Lib/thpool/public"
 LIBS="-L$W/_b -lmodule_core -lmodule_structs -lmodule_mem -lmodule_thpool -lpthread -Wl,-rpath,$W/_b"
-cd $W && git diff --quiet && git apply $O/patch.diff
-cmake --build $W/_b >/dev/null 2>&1 || { echo "BUILD FAIL"; exit 1; }
+cd $W && git checkout -q -- . && git apply $O/patch.diff || { echo "$p: patch does not apply"; exit 1; }
+cmake --build $W/_b >/dev/null 2>&1 || { echo "$p: BUILD FAIL"; exit 1; }
 (cd $W/_b/tests && ./ModuleTest >/dev/null 2>&1); t1=$?
 ctest --test-dir $W/_b >/dev/null 2>&1; t2=$?
 gcc -O1 -g $O/demo.c $INC $LIBS -o $O/demo_bin 2>/dev/null || gcc -O1 -g $O/demo.c $INC $LIBS -ldl -o $O/demo_bin
 timeout 120 $O/demo_bin >/dev/null 2>&1; d_with=$?
-git stash -q; cmake --build $W/_b >/dev/null 2>&1
+git apply -R $O/patch.diff; cmake --build $W/_b >/dev/null 2>&1
 timeout 120 $O/demo_bin >/dev/null 2>&1; d_without=$?
-git stash pop -q; rm -f $O/demo_bin
+git apply $O/patch.diff; rm -f $O/demo_bin
 echo "$p: tests_with_patch=$t1/$t2 demo_with_patch=$d_with demo_without=$d_without"
